@@ -117,6 +117,19 @@ class ClassInfo(object):
                 if b not in names:
                     names.append(b)
         self.all_base_names = names
+        # name = property(base._getter, base._setter): accessor functions taken from a base class by qualified name
+        for k, v in list(self.attrs.items()):
+            if not (isinstance(v, ast.Call) and isinstance(v.func, ast.Name) and v.func.id == 'property'):
+                continue
+            cur = list(self.properties.get(k, (None, None)))
+            for i, a in enumerate(v.args[:2]):
+                if cur[i] is None and isinstance(a, ast.Attribute) and isinstance(a.value, ast.Name):
+                    for anc in [self] + self.ancestors():
+                        if anc.name == a.value.id and a.attr in anc.methods:
+                            cur[i] = anc.methods[a.attr]
+                            break
+            if tuple(cur) != self.properties.get(k, (None, None)):
+                self.properties[k] = tuple(cur)
 
     def __repr__(self):
         return '<class %s>' % self.qual
